@@ -217,6 +217,16 @@ def params_env(params, new_format):
     return " ".join(f"'delta.{k}={v}'" for k, v in params)
 
 
+def raw_params(cfg):
+    """The text of GIT_CONFIG_PARAMETERS for this configuration (None: unset): `params_raw` when the configuration
+    gives the text itself (family params-raw), otherwise the pairs written in one of git's two formats."""
+    if "params_raw" in cfg:
+        return cfg["params_raw"]
+    if cfg["params"]:
+        return params_env(cfg["params"], int(cfg_key(cfg), 16) % 2 == 0)
+    return None
+
+
 def impl_invocation(cfg, workdir):
     args = ["--show-config"]
     for o, v in cfg["cli"]:
@@ -240,8 +250,8 @@ def impl_invocation(cfg, workdir):
         env["DELTA_FEATURES"] = cfg["env_features"]
     if cfg["env_navigate"]:
         env["DELTA_NAVIGATE"] = "1"
-    if cfg["params"]:
-        env["GIT_CONFIG_PARAMETERS"] = params_env(cfg["params"], int(cfg_key(cfg), 16) % 2 == 0)
+    if raw_params(cfg) is not None:
+        env["GIT_CONFIG_PARAMETERS"] = raw_params(cfg)
     return args, env
 
 
@@ -321,14 +331,14 @@ def git_file_field(gc):
 def model_request(cfg, pi):
     cli = "\n".join(f"{o}\t{'true' if v is None else v}" for o, v in cfg["cli"])
     return " ".join([
-        "opts.resolve", hx(" ".join(pi)), hx(cli),
+        "opts.resolveraw", hx(" ".join(pi)), hx(cli),
         "-" if cfg["features"] is None else hx(cfg["features"]),
         "-" if cfg["env_features"] is None else hx(cfg["env_features"]),
         "1" if cfg["env_navigate"] else "0",
         "1" if cfg["no_gitconfig"] else "0",
         hx(""),                                   # the default git config: present and empty (HOME is empty)
         git_file_field(cfg["config"]),
-        hx("\n".join(f"{k}\t{v}" for k, v in cfg["params"])),
+        "-" if raw_params(cfg) is None else hx(raw_params(cfg)),   # the text of the variable: the model reads it
         hx(" ".join(cfg["probes"])),
     ])
 
@@ -1162,6 +1172,182 @@ def family_spellings(thorough, rng):
             out.append(g)
     return out
 
+# ------------------------------------------------------------------ family (9): the text of GIT_CONFIG_PARAMETERS
+def o_sq(s):
+    """git's sq_quote_buf (quote.c): the text in single quotes, `'` and `!` written as `'\''` and `'\!'`."""
+    return "'" + s.replace("'", "'\\''").replace("!", "'\\!'") + "'"
+
+
+def o_params_text(entries, new_format=True):
+    """What `git -c k[=v] …` leaves in GIT_CONFIG_PARAMETERS (config.c git_config_push_parameter): since git 2.31
+    `'key'='value'` (`'key'=` without value), before `'key=value'` (`'key'`); entries separated by a blank."""
+    out = []
+    for k, v in entries:
+        if new_format:
+            out.append(o_sq(k) + "=" + (o_sq(v) if v is not None else ""))
+        else:
+            out.append(o_sq(k if v is None else k + "=" + v))
+    return " ".join(out)
+
+
+def o_params_view(entries):
+    """git's reading of the entries, restricted to the main [delta] section: section and variable names are
+    case-insensitive (git-config(1) "Syntax"), a later entry overrides an earlier one, no value = boolean true."""
+    view = []
+    for k, v in entries:
+        parts = k.split(".")
+        if len(parts) == 2 and parts[0].lower() == "delta":
+            view.append([parts[1].lower(), v])
+    return view
+
+
+PARAMS_FILE_MAIN = [["file-modified-label", "FILE"], ["tabs", "3"], ["navigate", "false"], ["pager", "filepager"]]
+PARAMS_PROBES = ["file-modified-label", "tabs", "navigate", "pager"]
+# class -> list of `-c` entries (key, value | None)
+PARAMS_ENTRIES = {
+    "plain": [("delta.file-modified-label", "M"), ("delta.tabs", "5")],
+    "value-with-blanks": [("delta.file-modified-label", "a b  c")],
+    "value-with-equals": [("delta.file-modified-label", "a=b=c")],
+    "value-with-double-quotes-hash": [("delta.file-modified-label", 'red "#067a00" ; x')],
+    "value-non-ascii": [("delta.file-modified-label", "Δ → ✓")],
+    "value-with-tab-newline": [("delta.file-modified-label", "a\tb\nc")],
+    "value-backslash": [("delta.file-modified-label", "a\\b\\")],
+    "last-wins-2": [("delta.tabs", "5"), ("delta.tabs", "6")],
+    "last-wins-3-interleaved": [("delta.tabs", "5"), ("user.name", "A B"), ("delta.file-modified-label", "M"),
+                                ("delta.tabs", "6"), ("diff.renames", None), ("delta.tabs", "7")],
+    "last-wins-bool": [("delta.navigate", "true"), ("delta.navigate", "false"), ("delta.navigate", "yes")],
+    "foreign-around": [("user.name", "A B"), ("delta.tabs", "5"), ("color.ui", "auto"), ("core.quotepath", None)],
+    "foreign-with-bang-and-quote": [("alias.x", "!echo 'hi'"), ("delta.tabs", "5")],
+    "foreign-key-delta-like": [("deltax.tabs", "9"), ("xdelta.tabs", "9"), ("delta.tabs", "5")],
+    "git-unit-value": [("delta.tabs", "2k"), ("delta.navigate", "on")],
+    # ---- entries delta reads differently from git (each a hypothesis of `params_parse_format`)
+    "value-with-quote": [("delta.file-modified-label", "it's")],
+    "value-with-bang": [("delta.file-modified-label", "hi! there")],
+    "empty-value": [("delta.pager", "")],
+    "bare-key": [("delta.navigate", None)],
+    "key-uppercase": [("Delta.Tabs", "5")],
+    "key-mixed-case-bool": [("delta.Navigate", "true")],
+    "foreign-value-injection": [("user.name", "delta.file-modified-label=y")],
+    "quote-value-injection": [("delta.pager", "x' 'delta.tabs=9")],
+}
+# texts git never writes (or rejects): only model and implementation are compared
+PARAMS_MALFORMED = {
+    "empty-text": "",
+    "blank-text": "   ",
+    "unquoted": "delta.tabs=5",
+    "unterminated": "'delta.tabs'='5",
+    "no-separator": "'delta.tabs'='5''delta.navigate'='true'",
+    "blanks-around-equals": "'delta.tabs' = '5'",
+    "empty-key-tail": "'delta.'='5' 'delta.=6'",
+    "underscore-key": "'delta.ta_bs'='5'",
+    "digit-key": "'delta.tabs2'='5'",
+    "both-formats-mixed-up": "'delta.tabs=5'='6'",
+    "nested-old-in-new": "'delta.tabs'=''delta.tabs=9''",
+    "subsection-key": "'delta.a.tabs'='5'",
+    "double-quotes": "\"delta.tabs\"=\"5\"",
+    "newline-separated": "'delta.tabs'='5'\n'delta.navigate'='true'",
+    "old-then-new-same-key": "'delta.tabs=5' 'delta.tabs'='6'",
+    "only-quotes": "'" * 6,
+    "quote-then-entry": "''delta.tabs=5'",
+}
+
+
+def params_cfg(cls, raw, view, judged, mode):
+    c = base_cfg()
+    c["probes"] = list(PARAMS_PROBES)
+    c["config"]["main"] = [list(kv) for kv in PARAMS_FILE_MAIN]
+    if mode == "over-feature":              # the values below come from a custom feature instead of [delta]
+        c["config"]["main"] = []
+        add_section(c, "a", [tuple(kv) for kv in PARAMS_FILE_MAIN])
+        c["features"] = "a"
+    c["params"] = view
+    c["params_raw"] = raw
+    c["params_class"] = dict(cls=cls, judged=judged)
+    c["family"] = f"params-raw/{cls}/{mode}"
+    return c
+
+
+def family_params_raw(thorough, rng):
+    """The text of GIT_CONFIG_PARAMETERS itself: (a) `-c` entries written as git writes them, in both formats
+    (`o_params_text`, cross-checked against the installed git), judged against git's reading of them; (b) texts git
+    does not write, (c) seeded single-character edits of well-formed texts: model against implementation only."""
+    out = []
+    for cls, entries in PARAMS_ENTRIES.items():
+        view = o_params_view(entries)
+        for new in (True, False):
+            raw = o_params_text(entries, new)
+            for mode in (("over-main", "over-feature") if thorough or cls in ("plain", "last-wins-2") else ("over-main",)):
+                out.append(params_cfg(cls + (":new" if new else ":old"), raw, view, True, mode))
+    for cls, raw in PARAMS_MALFORMED.items():
+        out.append(params_cfg("malformed:" + cls, raw, [], False, "over-main"))
+    base = [o_params_text(e, n) for e in PARAMS_ENTRIES.values() for n in (True, False)]
+    for i in range(200 if thorough else 40):
+        t = list(rng.choice(base))
+        for _ in range(rng.choice([1, 1, 2, 3])):
+            pos = rng.randrange(len(t) + 1)
+            op = rng.choice(["del", "ins", "sub"])
+            ch = rng.choice("'= \\!d.-a\"")
+            if op == "del" and t:
+                del t[min(pos, len(t) - 1)]
+            elif op == "ins":
+                t.insert(pos, ch)
+            elif t:
+                t[min(pos, len(t) - 1)] = ch
+        out.append(params_cfg(f"edited:{i}", "".join(t), [], False, "over-main"))
+    return out
+
+
+def crosscheck_params_with_git(rep, cfgs):
+    """The oracle's formatter and reading against the installed git: for every entry list of family params-raw,
+    `git -c … ` must leave exactly the text the oracle wrote (the format of the installed git) and `git config --list`
+    under the oracle's text (either format) must give the oracle's view. A disagreement is a harness defect."""
+    import shutil
+    import subprocess
+    git = shutil.which("git")
+    if not git:
+        rep.notes["git_params_crosscheck"] = "no git executable: skipped"
+        return
+    env = {"PATH": os.environ.get("PATH", ""), "HOME": os.path.join(BUILD, "home"), "GIT_CONFIG_NOSYSTEM": "1",
+           "LC_ALL": "C"}
+    cwd = os.path.join(BUILD, "c13-cwd")
+    os.makedirs(cwd, exist_ok=True)
+    ver = subprocess.run([git, "--version"], capture_output=True).stdout.decode()
+    m = re.search(r"(\d+)\.(\d+)", ver)
+    new_git = bool(m) and (int(m.group(1)), int(m.group(2))) >= (2, 31)
+    bad, n = [], 0
+    for cls, entries in PARAMS_ENTRIES.items():
+        n += 1
+        args = [git]
+        for k, v in entries:
+            args += ["-c", k if v is None else f"{k}={v}"]
+        p = subprocess.run(args + ["-c", "alias.zz=!printenv GIT_CONFIG_PARAMETERS", "zz"], env=env, cwd=cwd,
+                           capture_output=True)
+        got = p.stdout.decode("utf-8", "replace")
+        got = got[:-1] if got.endswith("\n") else got
+        want = o_params_text(list(entries) + [("alias.zz", "!printenv GIT_CONFIG_PARAMETERS")], new_git)
+        if p.returncode != 0 or got != want:
+            bad.append(dict(check="text-git-writes", cls=cls, oracle=want, git=got))
+        for new in (True, False):
+            e = dict(env, GIT_CONFIG_PARAMETERS=o_params_text(entries, new))
+            p = subprocess.run([git, "config", "-z", "--list"], env=e, cwd=cwd, capture_output=True)
+            seen = {}
+            for item in p.stdout.decode("utf-8", "replace").split("\0"):
+                if not item:
+                    continue
+                k, sep, v = item.partition("\n")
+                parts = k.split(".")
+                if len(parts) == 2 and parts[0] == "delta":
+                    seen[parts[1]] = v if sep else None
+            mine = {}
+            for k, v in o_params_view(entries):
+                mine[k] = v
+            if p.returncode != 0 or seen != mine:
+                bad.append(dict(check="reading", cls=cls, new_format=new, oracle=mine, git=seen))
+    rep.corr_case("opts.oracle-params-text-vs-git", not bad, dict(
+        what="the oracle's writing / reading of GIT_CONFIG_PARAMETERS disagrees with the installed git (harness "
+             "defect, not a finding about delta)", disagreements=bad[:10]))
+    rep.notes["git_params_crosscheck"] = f"{n} entry lists checked against {ver.strip()}"
+
 
 def random_cfg(rng):
     """thorough tier: a random configuration over the same vocabulary (up to 4 custom nodes)."""
@@ -1397,7 +1583,12 @@ def evaluate(ctx, rep, cfgs, runs):
 
         # --- direct oracle 2: the documented precedence
         primary = None
-        if not irregular(c):
+        pc = c.get("params_class")
+        if pc:
+            rep.count("params-raw:" + ("judged" if pc["judged"] else "model-only"))
+        if pc and not pc["judged"]:
+            rep.count("oracle:not-judged-text-git-does-not-write")
+        elif not irregular(c):
             try:
                 primary = oracle_expected(c, defaults, impl, primary_only=True)[0]
             except Unjudged as u:
@@ -1431,6 +1622,11 @@ def evaluate(ctx, rep, cfgs, runs):
                     sig = "no-gitconfig-bare:builtin-feature-children-not-gathered"
                     what = (f"{bad}: with --no-gitconfig (and no --config) the features named by --features / "
                             f"DELTA_FEATURES are not expanded (a builtin feature's own sub-features are lost)")
+                elif pc:
+                    sig = "params-entry:" + pc["cls"]
+                    what = (f"GIT_CONFIG_PARAMETERS={c['params_raw']!r} (what git writes for the -c entries of class "
+                            f"{pc['cls']}): {bad}: observed {[ob[o] for o in bad]}, git's reading of the entries by the "
+                            f"documented precedence gives {[exp.get(o) for o in bad]}")
                 elif c.get("spelling"):
                     sp = c["spelling"]
                     gone = without_spelled(c)
@@ -1452,7 +1648,7 @@ def evaluate(ctx, rep, cfgs, runs):
                 rep.violation(sig, what, replay)
                 rep.count("oracle-mismatch")
                 break
-        elif irregular(c):
+        elif irregular(c) and not pc:
             rep.count("oracle:skipped-irregular")
 
         # --- correspondence with the model
@@ -1580,25 +1776,30 @@ def run(ctx, rep):
                 "7 placements as the highest-priority source ([delta] over a feature / alone, custom feature over a custom / builtin "
                 "feature, enabled by --features or [delta] features, GIT_CONFIG_PARAMETERS over [delta] / over a feature) x the probe "
                 "options of the type (quick: one drawn from ctx.rng), feature flags and the `features` key spelled likewise; the oracle "
-                "reads every value as git does (own reader, cross-checked against the installed git). Every configuration "
+                "reads every value as git does (own reader, cross-checked against the installed git); (9) the text of GIT_CONFIG_PARAMETERS "
+                "itself: -c entries as git writes them in both formats (values with blanks, =, quotes, !, tab / newline, non-ASCII, "
+                "empty, no value; repeated keys; other sections around; keys in another letter case) judged against git's reading, "
+                "texts git never writes and seeded 1-3 character edits of well-formed texts (model against binary). Every configuration "
                 "is run in >= 3 fresh processes. non-trivial = at least two sources set a probe, or features are "
                 "enabled, or --no-gitconfig; distinct by configuration hash")
     thorough = not ctx.quick()
     cfgs = (family_sources(thorough) + family_graphs(thorough) + family_flags(thorough) + family_nogitconfig(thorough)
             + family_env(thorough) + family_both(thorough) + family_post(thorough)
-            + family_spellings(thorough, ctx.rng))
+            + family_spellings(thorough, ctx.rng) + family_params_raw(thorough, ctx.rng))
     if thorough:
         cfgs += [random_cfg(ctx.rng) for _ in range(6000)]
     rep.exhaustive = dict(lattice_configs=len(cfgs), runs_per_config=ctx.n(3, 6))
     rep.extra_trusted += [
         "clap (which options count as supplied), libgit2's file syntax (quotes, escapes, comments, continuation "
-        "lines -> value; the harness passes the value and checks its own tables against the installed git), the "
-        "GIT_CONFIG_PARAMETERS regex, split_whitespace: inputs of the model; the typed readers (git integer / boolean "
+        "lines -> value; the harness passes the value and checks its own tables against the installed git), "
+        "split_whitespace: inputs of the model; the GIT_CONFIG_PARAMETERS reader is modelled (the model is given the text of "
+        "the variable: lean/DeltaModel/GitParams.lean; the regex engine itself is compared, not verified); the typed readers (git integer / boolean "
         "syntax, Rust parse::<usize|f64>) are modelled (lean/DeltaModel/OptionsValues.lean)",
         "run-to-run determinism of the real process is validated by repetition only (hash seeds are runtime)",
         "show-config rendering of a value is taken from the binary itself (same value given on the command line)",
     ]
     crosscheck_with_git(rep)
+    crosscheck_params_with_git(rep, cfgs)
     evaluate(ctx, rep, cfgs, ctx.n(3, 6))
 
 
